@@ -5,6 +5,8 @@
 import json, re, os, sys
 root = '/verif/seeded'
 why = {
+ 'C01-m14': 'recurseNodeArrayEqual weakens its length guard from != to >, so a proper prefix equals the longer array in one direction: a relational operator inside a value-level guard; the nearest structural rule (an equality helper must treat its two operands symmetrically) would need a proof that the element loop over lhs alone is justified by the guard, which is the arithmetic it would be checking',
+ 'C15-m16': 'the or-equal test of the integer branch of compareScalars compares the spellings (lhs.Value == rhs.Value) instead of the parsed numbers, so 0x10 <= 16 and 16 <= 0x10 are both false: both operands still reach the parser (O1/O5 hold) and the comparison that changed is on values; a rule forbidding raw .Value comparisons after a successful parse would also fire on a behaviour-preserving identical-spelling fast path',
  'C02-m1': 'a disjunct dropped from the custom-tag guard of UpdateAttributesFrom: a value-level predicate; the only rule that would fire is a frozen copy of the condition, which would also fire on behaviour-preserving rewrites',
  'C03-m1': 'delete victims are resolved in a first pass and removed in a second: every statement is individually fine, the defect is that paths computed before the first removal are stale afterwards (a history-dependent value, see known finding K1 for the nearest structural rule)',
  'C05-m2': 'the head comment is dropped only when leading-content pre-processing is on: which comment text survives is a runtime value of the YAML library, no structural footprint',
